@@ -20,7 +20,10 @@ import (
 	"github.com/goplus/gogen"
 )
 
-func init() { register("C04", runC04); register("C03", runC04) }
+func init() {
+	register("C04", func(a *runArgs) error { return runC04x(a, false) })
+	register("C03", func(a *runArgs) error { return runC04x(a, true) })
+}
 
 type cx struct {
 	K    string `json:"k"` // lit var conv un bin
@@ -293,7 +296,7 @@ type c04Case struct {
 	RefD string `json:"reference_text"`
 }
 
-func runC04(a *runArgs) error {
+func runC04x(a *runArgs, withTypes bool) error {
 	nRandom, depth := 2500, 2
 	if a.Tier == "thorough" {
 		nRandom, depth = 60000, 4
@@ -375,6 +378,11 @@ func runC04(a *runArgs) error {
 	m.Cases = idx
 	m.Distinct = idx
 	m.Files = cw.files
+	if withTypes {
+		if err := c03Types(a, m); err != nil {
+			return err
+		}
+	}
 	return writeJSON(filepath.Join(a.Out, "meta.json"), m)
 }
 
